@@ -69,7 +69,7 @@ func (ft *FT) havocAll(st *State) {
 	ft.ctr++
 	keep := map[string]Term{}
 	for k, v := range st.m {
-		if strings.HasPrefix(k, "L!") || strings.HasPrefix(k, "D!") || strings.HasPrefix(k, "VIS!") {
+		if strings.HasPrefix(k, "L!") || strings.HasPrefix(k, "D!") || strings.HasPrefix(k, "VIS!") || k == "HELD" {
 			keep[k] = v
 		}
 	}
